@@ -131,9 +131,12 @@ def showbias(
     if isinstance(group_columns, str):
         groups = data[group_columns]
     elif isinstance(group_columns, Iterable):
-        groups = data.apply(
-            lambda row: "_".join(row[col] for col in group_columns), axis=1
-        )
+        # Each combination of group values is encoded by its rank among the sorted
+        # combinations. Joining the values with a separator would confuse values that
+        # contain the separator.
+        group_keys = pd.MultiIndex.from_frame(data[list(group_columns)])
+        group_codes, group_keys = pd.factorize(group_keys, sort=True)
+        groups = pd.Series(group_codes, index=data.index)
     else:
         raise TypeError(
             f"Got unexpected type {type(group_columns)} value for `group_columns`"
@@ -161,7 +164,10 @@ def showbias(
         return getattr(sample.group_cm(**kwargs), metric)()
 
     group_names = score_object.groups
-    group_index = _get_group_index(group_names, group_columns)
+    if isinstance(group_columns, str):
+        group_index = _get_group_index(group_names, group_columns)
+    else:
+        group_index = group_keys[group_names].set_names(list(group_columns))
     group_metrics = calculate_group_metric(score_object, **metric_kwargs)
 
     if normalize is not None:
